@@ -33,15 +33,17 @@ class Streams2(Streams):
             sy, sx = rng.choice([(2, 2), (2, 2), (2, 2), (1, 2), (1, 1)])
             kh, kw = rng.randint(1, 5), rng.randint(1, 5)
             H, W = rng.randint(1, 5), rng.randint(1, 5)
+            if i < 2:       # deterministic witnesses of finding transpose-conv-stride1:forward-padding-not-mirrored
+                sy, sx, kh, kw, H, W = 1, 1, 2, 2, 4, 4
             if (sy, sx) == (1, 2):
                 H, kh = 1, 1
             C, O = rng.choice([1, 2, 3]), rng.choice([1, 2])
-            same = rng.random() < 0.5
+            same = rng.random() < 0.5 if i >= 2 else i == 0
             if same:
                 OH, OW = H * sy, W * sx
             else:
                 OH, OW = H * sy + max(kh - sy, 0), W * sx + max(kw - sx, 0)
-            if rng.random() < 0.05:       # a shape the supported-operator check would refuse: the model must agree all the same
+            if i >= 2 and rng.random() < 0.05:       # a shape the supported-operator check would refuse: the model must agree all the same
                 OH += rng.choice([1, 2])
             ifm = self.tens([1, H, W, C], DataType.int8, 0.05, 3, "ifm")
             wv = np.random.RandomState(rng.getrandbits(32)).randint(-127, 128, [kh, kw, C, O])
@@ -61,7 +63,7 @@ class Streams2(Streams):
                 t, l, b, r = [int(v) for v in out.attrs["explicit_padding"]]
                 up = {resampling_mode.NONE: "n", resampling_mode.TRANSPOSE: "t"}.get(out.ifm_resampling_mode, "x")
                 ok_struct = out.type == Op.Conv2DBackpropInputSwitchedBias and out.ifm is ifm and out.weights is wt
-                real = (f"ok {int(up == 't')} {ksy} {ksx} {t} {l} {b} {r}" if up == "t" else "none") if ok_struct else "?structure"
+                real = f"ok {int(up == 't')} {ksy} {ksx} {t} {l} {b} {r}" if ok_struct and up in "nt" else "?structure"
                 if tuple(out.attrs["skirt"]) != (t, l, b, r) and up == "t":
                     real = "?skirt " + real
                 sem = (f"rwsem2_tconv {int(same)} {H} {W} {C} {kh} {kw} {O} {sy} {sx} {OH} {OW} {up} {ksy} {ksx} {t} {l} {b} {r} "
@@ -83,8 +85,15 @@ class Streams2(Streams):
                 ck.count("rw2_tconv_real_raises_model_none")
                 continue
             if m != real or sm.startswith("fail") or sm.startswith("err"):
+                # attribution (not the verdict): stride 1x1, and the real padding is the forward convolution's
+                key = None
+                if desc[7:9] == (1, 1) and sm.startswith("fail") and real.startswith("ok 0 1 1 "):
+                    fwd = lambda k: ((k - 1) // 2, k // 2) if desc[0] == "SAME" else (0, 0)  # noqa: E731
+                    (t_, b_), (l_, r_) = fwd(desc[4]), fwd(desc[5])
+                    if real == f"ok 0 1 1 {t_} {l_} {b_} {r_}":
+                        key = "transpose-conv-stride1:forward-padding-not-mirrored"
                 self.disagree("fixup_conv2d_backprop/add_padding_fields", f"pad,H,W,C,kh,kw,O,sy,sx,OH,OW={desc}: model '{m}', real '{real}'",
-                              {"stream": "tconv", "case": desc, "request": rq, "semantic_request": sq}, sm)
+                              {"stream": "tconv", "case": desc, "request": rq, "semantic_request": sq}, sm, key=key)
 
     # ---- 9. grouped convolution ------------------------------------------------------------------------
     def stream_groups(self, n):
@@ -112,7 +121,7 @@ class Streams2(Streams):
                 wt.quantization.scale_f32 = np.array([0.01 * (j + 1) for j in range(O)], np.float32)
                 wt.quantization.zero_point = np.zeros(O, np.int64)
             bv = [rng.randint(-1000, 1000) for _ in range(O)]
-            bias = create_const_tensor("b", [O], DataType.int32, bv) if has_bias else None
+            bias = self.const([O], DataType.int32, bv, 0.0005, 0, "b") if has_bias else None
             oh, ow = (-(-H // sy), -(-W // sx)) if same else ((H - kh) // sy + 1, (W - kw) // sx + 1)
             ofm = self.tens([1, oh, ow, O], DataType.int8, 0.1, 0, "ofm")
             attrs = {"padding": Padding.SAME if same else Padding.VALID, "stride_w": sx, "stride_h": sy, "dilation_w_factor": 1,
